@@ -1,29 +1,35 @@
 /- Aho-Corasick construction, helper lemmas 5: `_yr_ac_create_failure_links` — failure = longest proper path-suffix,
-   match list of a state = its own entries followed by the match list of its failure state -/
-import YaraModel.Lemmas.AcBuildPool
+   match list of a state = the entries of all atoms that are suffixes of its path, longest first (`specList`), root matches
+   (zero-length atoms) last -/
+import YaraModel.Lemmas.AcBuildSpec
 namespace YaraModel.AC.Build
 open YaraModel.Text YaraModel.AC
 
-/-- the match list of `x` is its own entries, continued by the list of the state of the longest proper path-suffix -/
-def MatchOK (A : Auto) (atoms : List (Nat × Atom)) (lk : Nat → Prop) (x : Nat) : Prop :=
-  ∃ f, f < A.states.size ∧ (f = 0 ∨ lk f) ∧ (A.st f).path = lsuf (pathsOf A) (A.st x).path.tail ∧
-    ChainSeg A.pool (A.st x).matchesRef (ownIdx atoms (A.st x).path) (A.st f).matchesRef
+/-- where the list of `x` must continue after its own entries -/
+def RT (A : Auto) (atoms : List (Nat × Atom)) (x : Nat) : Nat := headRef (specList atoms (A.st x).path.tail)
+/-- the root's match list -/
+def R0 (atoms : List (Nat × Atom)) : Nat := headRef (ownIdx atoms [])
 
-/-- match-list structure; `lk` = the states already linked to their failure state's list -/
-structure MS (A : Auto) (atoms : List (Nat × Atom)) (lk : Nat → Prop) : Prop where
+/-- match-list structure during the pass. `lk`: states already linked to their failure state's list (their parent has been
+    popped), `pp`: states popped themselves. A linked state's continuation may still be NULL where the final one is the
+    root's list (the failure state had not inherited it yet); popping the state repairs that. -/
+structure MS (A : Auto) (atoms : List (Nat × Atom)) (lk pp : Nat → Prop) : Prop where
   trie : Trie A
   pool_size : A.pool.size = atoms.length
   pool_info : ∀ (e : Nat) (a : Nat × Atom), atoms[e]? = some a →
     ∃ nx, A.pool[e]? = some (a.1, a.2.bytes.length + a.2.backtrack, nx)
   atoms_in : ∀ a ∈ atoms, ∃ s, s < A.states.size ∧ (A.st s).path = a.2.bytes
-  nonempty : ∀ a ∈ atoms, a.2.bytes ≠ []
-  root_ref : (A.st 0).matchesRef = 0
+  root_bt : ∀ a ∈ atoms, a.2.bytes = [] → a.2.backtrack = 0
+  root_chain : ChainSeg A.pool (A.st 0).matchesRef (ownIdx atoms []) 0
+  pp_lk : ∀ x, pp x → lk x
   lk_range : ∀ x, lk x → 0 < x ∧ x < A.states.size
-  matched : ∀ x, lk x → MatchOK A atoms lk x
   fresh : ∀ x, 0 < x → x < A.states.size → ¬ lk x → ChainSeg A.pool (A.st x).matchesRef (ownIdx atoms (A.st x).path) 0
+  linked : ∀ x, lk x → ¬ pp x → ∃ tl, ChainSeg A.pool (A.st x).matchesRef (ownIdx atoms (A.st x).path) tl ∧
+    (tl = RT A atoms x ∨ (tl = 0 ∧ RT A atoms x = R0 atoms))
+  popped : ∀ x, pp x → ChainSeg A.pool (A.st x).matchesRef (ownIdx atoms (A.st x).path) (RT A atoms x)
 
-structure I2 (A : Auto) (atoms : List (Nat × Atom)) (lk : Nat → Prop) : Prop where
-  ms : MS A atoms lk
+structure I2 (A : Auto) (atoms : List (Nat × Atom)) (lk pp : Nat → Prop) : Prop where
+  ms : MS A atoms lk pp
   root_fail : (A.st 0).failure = 0
   fail : ∀ x, lk x → (A.st x).failure < A.states.size ∧
     (A.st (A.st x).failure).path = lsuf (pathsOf A) (A.st x).path.tail
@@ -34,116 +40,111 @@ theorem Trie.path_ne_nil {A : Auto} (hT : Trie A) {x : Nat} (hx : x < A.states.s
   rw [hT.depth_eq x hx, h] at this
   simp at this
 
-theorem atoms_mem_paths {A : Auto} {atoms : List (Nat × Atom)} {lk : Nat → Prop} (h : MS A atoms lk) {e : Nat} {a : Nat × Atom}
-    (ha : atoms[e]? = some a) : a.2.bytes ∈ pathsOf A := by
-  obtain ⟨s, hs, hp⟩ := h.atoms_in a (List.mem_of_getElem? ha)
+theorem atoms_in_paths {A : Auto} {atoms : List (Nat × Atom)}
+    (hin : ∀ a ∈ atoms, ∃ s, s < A.states.size ∧ (A.st s).path = a.2.bytes) :
+    ∀ (e : Nat) (a : Nat × Atom), atoms[e]? = some a → a.2.bytes ∈ pathsOf A := by
+  intro e a ha
+  obtain ⟨s, hs, hp⟩ := hin a (List.mem_of_getElem? ha)
   exact mem_pathsOf.mpr ⟨s, hs, hp⟩
 
-/-- the whole match list of a linked state: exactly the entries of the atoms that are suffixes of its path -/
-theorem MS.full_chain {A : Auto} {atoms : List (Nat × Atom)} {lk : Nat → Prop} (h : MS A atoms lk) :
-    ∀ (n x : Nat), (A.st x).path.length = n → (x = 0 ∨ lk x) →
-    ∃ l, ChainSeg A.pool (A.st x).matchesRef l 0 ∧ l.Nodup ∧
-      (∀ e, e ∈ l ↔ ∃ a, atoms[e]? = some a ∧ a.2.bytes <:+ (A.st x).path) := by
+theorem specList_ends (atoms : List (Nat × Atom)) : ∀ (w : Bytes), ∃ pre, specList atoms w = pre ++ ownIdx atoms [] := by
+  intro w
+  induction w with
+  | nil => exact ⟨[], rfl⟩
+  | cons c t ih =>
+    obtain ⟨pre, hp⟩ := ih
+    exact ⟨ownIdx atoms (c :: t) ++ pre, by simp [specList, hp]⟩
+
+theorem R0_of_specList_nil {atoms : List (Nat × Atom)} {w : Bytes} (h : headRef (specList atoms w) = 0) : R0 atoms = 0 := by
+  obtain ⟨pre, hp⟩ := specList_ends atoms w
+  rw [hp] at h
+  unfold R0
+  cases hpre : pre with
+  | nil => rw [hpre] at h; simpa using h
+  | cons a l => rw [hpre] at h; simp [headRef] at h
+
+/-- the reference of a linked state is final, except that it may still be NULL where it will be the root's list -/
+theorem MS.ref_status {A : Auto} {atoms : List (Nat × Atom)} {lk pp : Nat → Prop} (h : MS A atoms lk pp) {t : Nat} (ht : t = 0 ∨ lk t) :
+    (A.st t).matchesRef = headRef (specList atoms (A.st t).path) ∨
+    ((A.st t).matchesRef = 0 ∧ headRef (specList atoms (A.st t).path) = R0 atoms) := by
+  rcases ht with ht | ht
+  · subst ht
+    left
+    rw [h.trie.root_path]
+    have := h.root_chain.head_eq
+    rw [this]
+    simp only [specList]
+    split
+    · rename_i e; rw [e]; rfl
+    · rfl
+  · have hr := h.lk_range t ht
+    have hne := h.trie.path_ne_nil hr.2 hr.1
+    rw [specList_of_ne_nil atoms _ hne, headRef_append]
+    have key : ∀ tl, ChainSeg A.pool (A.st t).matchesRef (ownIdx atoms (A.st t).path) tl → tl = RT A atoms t →
+        (A.st t).matchesRef = if ownIdx atoms (A.st t).path = [] then headRef (specList atoms (A.st t).path.tail)
+          else headRef (ownIdx atoms (A.st t).path) := by
+      intro tl hc htl
+      rw [hc.head_eq, htl]; rfl
+    by_cases hp : pp t
+    · exact Or.inl (key _ (h.popped t hp) rfl)
+    · obtain ⟨tl, hc, htl⟩ := h.linked t ht hp
+      rcases htl with htl | ⟨htl, hst⟩
+      · exact Or.inl (key _ hc htl)
+      · subst htl
+        by_cases ho : ownIdx atoms (A.st t).path = []
+        · right
+          rw [if_pos ho]
+          refine ⟨?_, hst⟩
+          rw [hc.head_eq, if_pos ho]
+        · left
+          rw [hc.head_eq, if_neg ho, if_neg ho]
+
+/-- a popped state (or the root) whose shallower states are all popped has its complete, final match list -/
+theorem MS.complete_chain {A : Auto} {atoms : List (Nat × Atom)} {lk pp : Nat → Prop} (h : MS A atoms lk pp) :
+    ∀ (n y : Nat), (A.st y).path.length = n → (y = 0 ∨ pp y) → y < A.states.size →
+    (∀ g, 0 < g → g < A.states.size → (A.st g).depth < (A.st y).depth → pp g) →
+    ChainSeg A.pool (A.st y).matchesRef (specList atoms (A.st y).path) 0 := by
+  have hT := h.trie
   intro n
   induction n using Nat.strongRecOn with
   | _ n ih =>
-    intro x hn hx
-    rcases hx with hx | hx
-    · subst hx
-      refine ⟨[], by simp [ChainSeg, h.root_ref], List.nodup_nil, ?_⟩
-      intro e
-      rw [h.trie.root_path]
-      constructor
-      · intro he; cases he
-      · rintro ⟨a, ha, hs⟩
-        exact absurd (List.eq_nil_of_suffix_nil hs) (h.nonempty a (List.mem_of_getElem? ha))
-    · obtain ⟨f, hf, hfl, hfp, hch⟩ := h.matched x hx
-      have hxr := h.lk_range x hx
-      have hne := h.trie.path_ne_nil hxr.2 hxr.1
-      have hlen : (A.st f).path.length < n := by
-        rw [hfp, ← hn]
-        have := lsuf_length_le (pathsOf A) (A.st x).path.tail
-        have : (A.st x).path.tail.length < (A.st x).path.length := by
-          cases hp : (A.st x).path with
-          | nil => exact absurd hp hne
-          | cons c t => simp
-        omega
-      obtain ⟨lf, hc, hnd, hmem⟩ := ih _ hlen f rfl hfl
-      refine ⟨ownIdx atoms (A.st x).path ++ lf, hch.append hc, ?_, ?_⟩
-      · rw [List.nodup_append]
-        refine ⟨ownIdx_nodup _ _, hnd, ?_⟩
-        intro a ha b hb e
-        subst e
-        obtain ⟨a1, h1, h2⟩ := mem_ownIdx.mp ha
-        obtain ⟨a2, h3, h4⟩ := (hmem a).mp hb
-        rw [h1] at h3; cases h3
-        have := h4.length_le
-        rw [h2, hn] at this
-        omega
-      · intro e
-        rw [List.mem_append, mem_ownIdx, hmem]
-        constructor
-        · rintro (⟨a, ha, hp⟩ | ⟨a, ha, hs⟩)
-          · exact ⟨a, ha, by rw [hp]; exact List.suffix_refl _⟩
-          · refine ⟨a, ha, hs.trans ?_⟩
-            rw [hfp]
-            exact (lsuf_suffix _ _).trans (List.tail_suffix _)
-        · rintro ⟨a, ha, hs⟩
-          cases hp : (A.st x).path with
-          | nil => exact absurd hp hne
-          | cons c t =>
-            rw [hp] at hs
-            rcases List.suffix_cons_iff.mp hs with h1 | h1
-            · exact Or.inl ⟨a, ha, by rw [h1]⟩
-            · right
-              refine ⟨a, ha, ?_⟩
-              rw [hfp, hp, List.tail_cons]
-              exact lsuf_max _ _ _ (atoms_mem_paths h ha) h1
-
-theorem MS.full_chain_length {A : Auto} {atoms : List (Nat × Atom)} {lk : Nat → Prop} (_h : MS A atoms lk) {x : Nat} {l : List Nat}
-    (hnd : l.Nodup) (hmem : ∀ e, e ∈ l ↔ ∃ a, atoms[e]? = some a ∧ a.2.bytes <:+ (A.st x).path) : l.length ≤ atoms.length := by
-  apply nodup_length_le _ _ hnd
-  intro e he
-  obtain ⟨a, ha, _⟩ := (hmem e).mp he
-  exact (List.getElem?_eq_some_iff.mp ha).1
-
-/-- with no zero-length atom the root has no matches, and the "inherit the root's list" part of the loop body does nothing -/
-theorem rootFixup_noop {A : Auto} {atoms : List (Nat × Atom)} {lk : Nat → Prop} (h : MS A atoms lk) {cur : Nat}
-    (hc : cur = 0 ∨ lk cur) : rootFixup A cur = A := by
-  unfold rootFixup
-  by_cases hr : (A.st cur).matchesRef ≠ 0
-  · rw [if_pos hr]
-    obtain ⟨l, hch, hnd, hmem⟩ := h.full_chain _ cur rfl hc
-    have hlen := h.full_chain_length hnd hmem
-    rcases List.eq_nil_or_concat l with hl | ⟨init, last, hl⟩
-    · subst hl; simp only [ChainSeg] at hch; exact absurd hch hr
-    · subst hl
-      rw [List.concat_eq_append] at hch hlen
-      have hlm := lastMatch_spec A init last _ A.pool.size hch (by rw [h.pool_size]; simp at hlen; omega)
-      simp only
-      rw [hlm]
-      split
-      · obtain ⟨m, _, h2⟩ := hch.split
-        simp only [ChainSeg] at h2
-        have : poolNext A (last + 1) = 0 := by rw [poolNext_eq]; simpa using h2.2.2
-        rw [h.root_ref, ← this]
-        exact setNext_noop A (last + 1)
-      · rfl
-  · rw [if_neg hr]
-    have hr' : (A.st cur).matchesRef = 0 := by omega
-    apply modify_noop
-    rw [h.root_ref]
-    cases hs : A.st cur with
-    | mk i d m f s c p =>
-      rw [hs] at hr'
-      simp only at hr'
-      subst hr'
-      rfl
+    intro y hn hy hys hdp
+    rcases hy with hy | hy
+    · subst hy
+      rw [hT.root_path]; exact h.root_chain
+    · have hr := h.lk_range y (h.pp_lk y hy)
+      have hne := hT.path_ne_nil hr.2 hr.1
+      rw [specList_of_ne_nil atoms _ hne]
+      refine (h.popped y hy).append ?_
+      -- the state of the longest path-suffix of the tail
+      obtain ⟨f, hf, hfp⟩ := mem_pathsOf.mp (lsuf_mem (pathsOf A) hT.nil_mem (A.st y).path.tail)
+      have hlen : (A.st f).path.length < (A.st y).path.length := by
+        rw [hfp]
+        have := lsuf_length_le (pathsOf A) (A.st y).path.tail
+        cases hp : (A.st y).path with
+        | nil => exact absurd hp hne
+        | cons c t => rw [hp] at this; simp at this ⊢; omega
+      have hdf : (A.st f).depth < (A.st y).depth := by rw [hT.depth_eq f hf, hT.depth_eq y hr.2]; exact hlen
+      have hfs : f = 0 ∨ pp f := by
+        rcases Nat.eq_zero_or_pos f with e | e
+        · exact Or.inl e
+        · exact Or.inr (hdp f e hf hdf)
+      have hc := ih _ (by omega) f rfl hfs hf (fun g h0 hg hd => hdp g h0 hg (by omega))
+      have hsl : specList atoms (A.st f).path = specList atoms (A.st y).path.tail := by
+        rw [hfp]; exact (specList_lsuf (atoms_in_paths h.atoms_in) _).symm
+      rw [hsl] at hc
+      have : RT A atoms y = (A.st f).matchesRef := by
+        unfold RT
+        rw [hc.head_eq]
+        split
+        · rename_i e; rw [e]; rfl
+        · rfl
+      rw [this]; exact hc
 
 /-- all non-root states of depth at most `d` are linked -/
 def DC (A : Auto) (lk : Nat → Prop) (d : Nat) : Prop := ∀ g, 0 < g → g < A.states.size → (A.st g).depth ≤ d → lk g
 
-theorem findFailure_spec {A : Auto} {atoms : List (Nat × Atom)} {lk : Nat → Prop} (h : I2 A atoms lk) {d : Nat} (hdc : DC A lk d)
+theorem findFailure_spec {A : Auto} {atoms : List (Nat × Atom)} {lk pp : Nat → Prop} (h : I2 A atoms lk pp) {d : Nat} (hdc : DC A lk d)
     (c : UInt8) : ∀ (fuel g : Nat), g < A.states.size → (A.st g).depth + 1 ≤ d → (A.st g).depth < fuel →
     match findFailure A c fuel g with
     | some t => t < A.states.size ∧ lk t ∧ (A.st t).path = lsuf (pathsOf A) ((A.st g).path ++ [c])
@@ -189,14 +190,15 @@ theorem findFailure_spec {A : Auto} {atoms : List (Nat × Atom)} {lk : Nat → P
         rw [lsuf_fail_step _ hT.nil_mem hT.prefixClosed _ c hgne hnp, ← hf2]
         exact this
 
-theorem I2.congr_lk {A : Auto} {atoms : List (Nat × Atom)} {lk lk' : Nat → Prop} (h : I2 A atoms lk) (e : ∀ x, lk x ↔ lk' x) :
-    I2 A atoms lk' := by
+
+theorem I2.congr_lk {A : Auto} {atoms : List (Nat × Atom)} {lk lk' pp pp' : Nat → Prop} (h : I2 A atoms lk pp)
+    (e : ∀ x, lk x ↔ lk' x) (e2 : ∀ x, pp x ↔ pp' x) : I2 A atoms lk' pp' := by
   have : lk = lk' := funext fun x => propext (e x)
-  rw [← this]; exact h
+  have : pp = pp' := funext fun x => propext (e2 x)
+  subst_vars; exact h
 
 theorem DC.mono {A : Auto} {lk lk' : Nat → Prop} {d : Nat} (h : DC A lk d) (hm : ∀ x, lk x → lk' x) : DC A lk' d :=
   fun g h0 hg hd => hm g (h g h0 hg hd)
-
 
 theorem shape_path {A B : Auto} {i : Nat} (h : shape B i = shape A i) : (B.st i).path = (A.st i).path := by
   simp only [shape, Prod.mk.injEq] at h; exact h.2.2.2
@@ -210,25 +212,26 @@ theorem shape_depth {A B : Auto} {i : Nat} (h : shape B i = shape A i) : (B.st i
 theorem shape_input {A B : Auto} {i : Nat} (h : shape B i = shape A i) : (B.st i).input = (A.st i).input := by
   simp only [shape, Prod.mk.injEq] at h; exact h.1
 
-/-- linking one more state `ch`: what the new automaton has to satisfy -/
-theorem I2_update {A B : Auto} {atoms : List (Nat × Atom)} {lk : Nat → Prop} (h : I2 A atoms lk) {ch f : Nat}
-    (hch : 0 < ch ∧ ch < A.states.size) (hnl : ¬ lk ch)
+
+/-- changing one state `ch` (its failure link, its match reference, the `next` of its own entries): what has to be shown -/
+theorem I2_frame {A B : Auto} {atoms : List (Nat × Atom)} {lk pp lk' pp' : Nat → Prop} (h : I2 A atoms lk pp) {ch : Nat}
+    (hch : 0 < ch ∧ ch < A.states.size)
     (s1 : B.states.size = A.states.size) (s2 : ∀ i, shape B i = shape A i)
     (s3 : ∀ j, j ≠ ch → (B.st j).matchesRef = (A.st j).matchesRef ∧ (B.st j).failure = (A.st j).failure)
     (s4 : B.pool.size = A.pool.size)
     (s4' : ∀ (e a b : Nat), (∃ n, A.pool[e]? = some (a, b, n)) → ∃ n, B.pool[e]? = some (a, b, n))
     (s5 : ∀ e, e ∉ ownIdx atoms (A.st ch).path → poolNextAt B.pool e = poolNextAt A.pool e)
-    (s6 : (B.st ch).failure = f ∧ f < A.states.size ∧ (f = 0 ∨ lk f) ∧ (A.st f).path = lsuf (pathsOf A) (A.st ch).path.tail ∧
-      ChainSeg B.pool (B.st ch).matchesRef (ownIdx atoms (A.st ch).path) (A.st f).matchesRef) :
-    I2 B atoms (fun x => lk x ∨ x = ch) := by
+    (hlk : ∀ x, x ≠ ch → (lk' x ↔ lk x)) (hpp : ∀ x, x ≠ ch → (pp' x ↔ pp x)) (hpl : pp' ch → lk' ch)
+    (cfresh : ¬ lk' ch → ChainSeg B.pool (B.st ch).matchesRef (ownIdx atoms (A.st ch).path) 0)
+    (clinked : lk' ch → ¬ pp' ch → ∃ tl, ChainSeg B.pool (B.st ch).matchesRef (ownIdx atoms (A.st ch).path) tl ∧
+      (tl = RT A atoms ch ∨ (tl = 0 ∧ RT A atoms ch = R0 atoms)))
+    (cpopped : pp' ch → ChainSeg B.pool (B.st ch).matchesRef (ownIdx atoms (A.st ch).path) (RT A atoms ch))
+    (cfail : lk' ch → (B.st ch).failure < A.states.size ∧
+      (A.st (B.st ch).failure).path = lsuf (pathsOf A) (A.st ch).path.tail) :
+    I2 B atoms lk' pp' := by
   have hT := h.ms.trie
   have hP : pathsOf B = pathsOf A := pathsOf_congr s1 s2
-  have hne : ∀ g, (g = 0 ∨ lk g) → g ≠ ch := by
-    intro g hg e
-    subst e
-    rcases hg with hg | hg
-    · omega
-    · exact hnl hg
+  have hRT : ∀ x, RT B atoms x = RT A atoms x := fun x => by unfold RT; rw [shape_path (s2 x)]
   have frame : ∀ x, x < A.states.size → x ≠ ch → ∀ r tl, ChainSeg A.pool r (ownIdx atoms (A.st x).path) tl →
       ChainSeg B.pool r (ownIdx atoms (A.st x).path) tl := by
     intro x hx hxc r tl hc
@@ -237,49 +240,55 @@ theorem I2_update {A B : Auto} {atoms : List (Nat × Atom)} {lk : Nat → Prop} 
     apply s5
     intro he2
     exact hxc (hT.path_inj x ch hx hch.2 (ownIdx_disjoint he he2))
-  refine ⟨⟨hT.congr s1 s2, by rw [s4]; exact h.ms.pool_size, ?_, ?_, h.ms.nonempty, ?_, ?_, ?_, ?_⟩, ?_, ?_⟩
+  refine ⟨⟨hT.congr s1 s2, by rw [s4]; exact h.ms.pool_size, ?_, ?_, h.ms.root_bt, ?_, ?_, ?_, ?_, ?_, ?_⟩, ?_, ?_⟩
   · intro e a ha
     exact s4' e _ _ (h.ms.pool_info e a ha)
   · intro a ha
     obtain ⟨s, hs1, hs2⟩ := h.ms.atoms_in a ha
     exact ⟨s, by omega, by rw [shape_path (s2 s)]; exact hs2⟩
-  · rw [(s3 0 (by omega)).1]; exact h.ms.root_ref
+  · rw [(s3 0 (by omega)).1]
+    have := frame 0 hT.size_pos (by omega) _ _ (by rw [hT.root_path]; exact h.ms.root_chain)
+    rw [hT.root_path] at this; exact this
   · intro x hx
-    rcases hx with hx | hx
-    · have := h.ms.lk_range x hx; omega
-    · subst hx; omega
+    by_cases e : x = ch
+    · subst e; exact hpl hx
+    · exact (hlk x e).mpr (h.ms.pp_lk x ((hpp x e).mp hx))
   · intro x hx
-    by_cases hxc : x = ch
-    · subst hxc
-      obtain ⟨e1, e2, e3, e4, e5⟩ := s6
-      refine ⟨f, by omega, e3.imp id Or.inl, ?_, ?_⟩
-      · rw [shape_path (s2 f), shape_path (s2 x), hP]; exact e4
-      · rw [shape_path (s2 x), (s3 f (hne f e3)).1]; exact e5
-    · have hlx : lk x := by rcases hx with hx | hx; exact hx; exact absurd hx hxc
-      obtain ⟨fx, g1, g2, g3, g4⟩ := h.ms.matched x hlx
-      have hxr := h.ms.lk_range x hlx
-      refine ⟨fx, by omega, g2.imp id Or.inl, ?_, ?_⟩
-      · rw [shape_path (s2 fx), shape_path (s2 x), hP]; exact g3
-      · rw [shape_path (s2 x), (s3 fx (hne fx g2)).1, (s3 x hxc).1]
-        exact frame x hxr.2 hxc _ _ g4
-  · intro x h0 hx hnlx
-    have hxc : x ≠ ch := fun e => hnlx (Or.inr e)
-    rw [shape_path (s2 x), (s3 x hxc).1]
-    exact frame x (by omega) hxc _ _ (h.ms.fresh x h0 (by omega) (fun hh => hnlx (Or.inl hh)))
+    by_cases e : x = ch
+    · subst e; omega
+    · have := h.ms.lk_range x ((hlk x e).mp hx); omega
+  · intro x h0 hx hn
+    rw [shape_path (s2 x)]
+    by_cases e : x = ch
+    · subst e; exact cfresh hn
+    · rw [(s3 x e).1]
+      exact frame x (by omega) e _ _ (h.ms.fresh x h0 (by omega) (fun hh => hn ((hlk x e).mpr hh)))
+  · intro x hx hn
+    rw [shape_path (s2 x), hRT]
+    by_cases e : x = ch
+    · subst e; exact clinked hx hn
+    · obtain ⟨tl, hc, htl⟩ := h.ms.linked x ((hlk x e).mp hx) (fun hh => hn ((hpp x e).mpr hh))
+      have hr := h.ms.lk_range x ((hlk x e).mp hx)
+      rw [(s3 x e).1]
+      exact ⟨tl, frame x hr.2 e _ _ hc, htl⟩
+  · intro x hx
+    rw [shape_path (s2 x), hRT]
+    by_cases e : x = ch
+    · subst e; exact cpopped hx
+    · have hpx := (hpp x e).mp hx
+      have hr := h.ms.lk_range x (h.ms.pp_lk x hpx)
+      rw [(s3 x e).1]
+      exact frame x hr.2 e _ _ (h.ms.popped x hpx)
   · rw [(s3 0 (by omega)).2]; exact h.root_fail
   · intro x hx
-    by_cases hxc : x = ch
-    · subst hxc
-      obtain ⟨e1, e2, e3, e4, e5⟩ := s6
-      rw [e1]
-      refine ⟨by omega, ?_⟩
-      rw [shape_path (s2 f), shape_path (s2 x), hP]; exact e4
-    · have hlx : lk x := by rcases hx with hx | hx; exact hx; exact absurd hx hxc
-      obtain ⟨g1, g2⟩ := h.fail x hlx
-      rw [(s3 x hxc).2]
-      refine ⟨by omega, ?_⟩
-      rw [shape_path (s2 _), shape_path (s2 x), hP]; exact g2
-
+    rw [s1, hP, shape_path (s2 x)]
+    by_cases e : x = ch
+    · subst e
+      obtain ⟨c1, c2⟩ := cfail hx
+      exact ⟨c1, by rw [shape_path (s2 _)]; exact c2⟩
+    · obtain ⟨g1, g2⟩ := h.fail x ((hlk x e).mp hx)
+      rw [(s3 x e).2]
+      exact ⟨g1, by rw [shape_path (s2 _)]; exact g2⟩
 
 theorem shape_modify (A : Auto) (ch : Nat) (f : State → State)
     (hf : ∀ x : State, (f x).input = x.input ∧ (f x).depth = x.depth ∧ (f x).children = x.children ∧ (f x).path = x.path) (i : Nat) :
@@ -290,10 +299,151 @@ theorem shape_modify (A : Auto) (ch : Nat) (f : State → State)
   · rename_i e; rw [e.1]; simp [(hf (A.st ch)).1, (hf (A.st ch)).2.1, (hf (A.st ch)).2.2.1, (hf (A.st ch)).2.2.2]
   · rfl
 
+
+theorem poolBt_of_info {A : Auto} {e a b n : Nat} (h : A.pool[e]? = some (a, b, n)) : poolBt A (e + 1) = b := by
+  unfold poolBt
+  simp [Array.getD_eq_getD_getElem?, h]
+
+theorem last_mem_own_nil {atoms : List (Nat × Atom)} {w : Bytes} {init : List Nat} {last : Nat}
+    (h : specList atoms w = init ++ [last]) (hne : ownIdx atoms [] ≠ []) : last ∈ ownIdx atoms [] := by
+  obtain ⟨pre, hp⟩ := specList_ends atoms w
+  rw [hp] at h
+  rcases List.eq_nil_or_concat (ownIdx atoms []) with e | ⟨i2, l2, e⟩
+  · exact absurd e hne
+  · rw [List.concat_eq_append] at e
+    rw [e, ← List.append_assoc] at h
+    have := (List.append_inj' h rfl).2
+    simp at this
+    rw [e, ← this]; simp
+
+/-- first part of the loop body: the popped state inherits the root's match list (where it has not got it through its
+    failure state already) — afterwards its match list is final -/
+theorem rootFixup_I2 {A : Auto} {atoms : List (Nat × Atom)} {lk pp : Nat → Prop} (h : I2 A atoms lk pp) {cur : Nat}
+    (hcur : lk cur) (hnp : ¬ pp cur) (hdp : ∀ g, 0 < g → g < A.states.size → (A.st g).depth < (A.st cur).depth → pp g) :
+    I2 (rootFixup A cur) atoms lk (fun x => pp x ∨ x = cur) := by
+  have hT := h.ms.trie
+  have hcr := h.ms.lk_range cur hcur
+  have hcne := hT.path_ne_nil hcr.2 hcr.1
+  obtain ⟨tl, hc, htl⟩ := h.ms.linked cur hcur hnp
+  have hroot : (A.st 0).matchesRef = R0 atoms := by
+    rw [h.ms.root_chain.head_eq]; unfold R0; split
+    · rename_i e; rw [e]; rfl
+    · rfl
+  -- the continuation that is final for `cur`
+  have hfinal : tl = 0 → R0 atoms = RT A atoms cur := by
+    intro h0
+    rcases htl with e | ⟨_, e⟩
+    · rw [← e, h0]; exact R0_of_specList_nil (by rw [h0] at e; exact e.symm)
+    · exact e.symm
+  have hlk' : ∀ x, x ≠ cur → (lk x ↔ lk x) := fun _ _ => Iff.rfl
+  have hpp' : ∀ x, x ≠ cur → ((pp x ∨ x = cur) ↔ pp x) := fun x e => ⟨fun hh => hh.resolve_right e, Or.inl⟩
+  -- the case where nothing changes
+  have nochange : tl = RT A atoms cur → I2 A atoms lk (fun x => pp x ∨ x = cur) := by
+    intro e
+    apply I2_frame (B := A) h hcr rfl (fun _ => rfl) (fun _ _ => ⟨rfl, rfl⟩) rfl (fun _ _ _ hh => hh) (fun _ _ => rfl) hlk' hpp' (fun _ => hcur)
+    · intro hh; exact absurd hcur hh
+    · intro _ hh; exact absurd (Or.inr rfl) hh
+    · intro _; rw [← e]; exact hc
+    · intro _; exact h.fail cur hcur
+  unfold rootFixup
+  by_cases hr : (A.st cur).matchesRef ≠ 0
+  · rw [if_pos hr]
+    simp only
+    by_cases htl0 : tl = 0
+    · -- the list is the own entries only: the last one gets the root's list
+      subst htl0
+      rcases List.eq_nil_or_concat (ownIdx atoms (A.st cur).path) with hl | ⟨init, last, hl⟩
+      · rw [hl] at hc; simp only [ChainSeg] at hc; exact absurd hc hr
+      · rw [List.concat_eq_append] at hl
+        rw [hl] at hc
+        have hlen : init.length ≤ A.pool.size := by
+          have := ownIdx_length_le atoms (A.st cur).path
+          rw [hl, h.ms.pool_size.symm] at this
+          simp at this; omega
+        rw [lastMatch_spec A init last _ _ hc hlen]
+        have hlast : last ∈ ownIdx atoms (A.st cur).path := by rw [hl]; simp
+        obtain ⟨a, ha, hab⟩ := mem_ownIdx.mp hlast
+        obtain ⟨nx, hnx⟩ := h.ms.pool_info last a ha
+        have hbt : poolBt A (last + 1) > 0 := by
+          rw [poolBt_of_info hnx, hab]
+          have : 0 < (A.st cur).path.length := by
+            cases hp : (A.st cur).path with
+            | nil => exact absurd hp hcne
+            | cons _ _ => simp
+          omega
+        rw [if_pos hbt, hroot]
+        have hnd : (init ++ [last]).Nodup := by rw [← hl]; exact ownIdx_nodup _ _
+        apply I2_frame (B := setNext A (last + 1) (R0 atoms)) h hcr (by simp) (fun _ => rfl) (fun _ _ => ⟨rfl, rfl⟩) (by simp)
+          (fun e a b hh => setNext_info A (last + 1) (R0 atoms) e a b hh) ?_ hlk' hpp' (fun _ => hcur)
+        · intro hh; exact absurd hcur hh
+        · intro _ hh; exact absurd (Or.inr rfl) hh
+        · intro _
+          rw [setNext_st, hl, ← hfinal rfl]
+          exact ChainSeg.setNext_last hc hnd _
+        · intro _; exact h.fail cur hcur
+        · intro e he
+          rw [setNext_next]
+          have : ¬ (e = last + 1 - 1 ∧ e < A.pool.size) := by
+            intro hh; apply he; rw [hh.1]; simpa using hlast
+          rw [if_neg this]
+    · -- the list continues into the final list of the failure state: nothing to do
+      have hexact : tl = RT A atoms cur := by
+        rcases htl with e | ⟨e, _⟩
+        · exact e
+        · exact absurd e htl0
+      -- complete chain from `cur`
+      have hcomplete : ChainSeg A.pool (A.st cur).matchesRef (specList atoms (A.st cur).path) 0 := by
+        have h2 := nochange hexact
+        exact h2.ms.complete_chain _ cur rfl (Or.inr (Or.inr rfl)) hcr.2 (fun g h0 hg hd => Or.inl (hdp g h0 hg hd))
+      rcases List.eq_nil_or_concat (specList atoms (A.st cur).path) with hl | ⟨init, last, hl⟩
+      · rw [hl] at hcomplete; simp only [ChainSeg] at hcomplete; exact absurd hcomplete hr
+      · rw [List.concat_eq_append] at hl
+        rw [hl] at hcomplete
+        have hlen : init.length ≤ A.pool.size := by
+          have := specList_length_le atoms (A.st cur).path
+          rw [hl, h.ms.pool_size.symm] at this
+          simp at this; omega
+        rw [lastMatch_spec A init last _ _ hcomplete hlen]
+        have hnext : poolNext A (last + 1) = 0 := by
+          obtain ⟨m, _, h2⟩ := hcomplete.split
+          simp only [ChainSeg] at h2
+          rw [poolNext_eq]; simpa using h2.2.2
+        have hsame : (if poolBt A (last + 1) > 0 then setNext A (last + 1) (A.st 0).matchesRef else A) = A := by
+          split
+          · rename_i hbt
+            by_cases hon : ownIdx atoms [] = []
+            · have : (A.st 0).matchesRef = 0 := by rw [hroot]; unfold R0; rw [hon]; rfl
+              rw [this, ← hnext]; exact setNext_noop A (last + 1)
+            · exfalso
+              have hm := last_mem_own_nil hl hon
+              obtain ⟨a, ha, hab⟩ := mem_ownIdx.mp hm
+              obtain ⟨nx, hnx⟩ := h.ms.pool_info last a ha
+              rw [poolBt_of_info hnx, hab, h.ms.root_bt a (List.mem_of_getElem? ha) hab] at hbt
+              simp at hbt
+          · rfl
+        rw [hsame]
+        exact nochange hexact
+  · rw [if_neg hr]
+    have hr' : (A.st cur).matchesRef = 0 := by omega
+    have hown : ownIdx atoms (A.st cur).path = [] := by rw [hr'] at hc; exact hc.nil_of_zero
+    have htl0 : tl = 0 := by
+      have := hc.head_eq; rw [hown, if_pos rfl] at this; omega
+    apply I2_frame (B := A.modify cur fun x => { x with matchesRef := (A.st 0).matchesRef }) h hcr (by simp)
+      (shape_modify A cur (fun x => { x with matchesRef := (A.st 0).matchesRef }) (fun _ => ⟨rfl, rfl, rfl, rfl⟩))
+      (fun j hj => by rw [st_modify_ne A cur j _ hj]; exact ⟨rfl, rfl⟩) rfl (fun _ _ _ hh => hh) (fun _ _ => rfl) hlk' hpp' (fun _ => hcur)
+    · intro hh; exact absurd hcur hh
+    · intro _ hh; exact absurd (Or.inr rfl) hh
+    · intro _
+      rw [st_modify_self A cur _ hcr.2, hown, hroot, hfinal htl0]
+      simp [ChainSeg]
+    · intro _
+      rw [st_modify_self A cur _ hcr.2]
+      exact h.fail cur hcur
+
 /-- the body of the loop over the children of the popped state `cur` -/
-theorem linkChild_I2 {A : Auto} {atoms : List (Nat × Atom)} {lk : Nat → Prop} (h : I2 A atoms lk) {d : Nat} (hdc : DC A lk d)
+theorem linkChild_I2 {A : Auto} {atoms : List (Nat × Atom)} {lk pp : Nat → Prop} (h : I2 A atoms lk pp) {d : Nat} (hdc : DC A lk d)
     {cur ch : Nat} (hcur : lk cur) (hd : (A.st cur).depth = d) (hch : ch ∈ (A.st cur).children) (hnl : ¬ lk ch) :
-    I2 (linkChild cur A ch) atoms (fun x => lk x ∨ x = ch) := by
+    I2 (linkChild cur A ch) atoms (fun x => lk x ∨ x = ch) pp := by
   have hT := h.ms.trie
   have hcr := h.ms.lk_range cur hcur
   have hcl := hT.child_lt cur hcr.2 ch hch
@@ -313,6 +463,11 @@ theorem linkChild_I2 {A : Auto} {atoms : List (Nat × Atom)} {lk : Nat → Prop}
     rw [hT.child_path cur hcr.2 ch hch, tail_append_singleton _ _ hcne, hg2]
     exact lsuf_step _ hT.nil_mem hT.prefixClosed _ _
   have hfresh := h.ms.fresh ch hch0.1 hch0.2 hnl
+  have hnpp : ¬ pp ch := fun hh => hnl (h.ms.pp_lk ch hh)
+  have hRT : RT A atoms ch = headRef (specList atoms (lsuf (pathsOf A) (A.st ch).path.tail)) := by
+    unfold RT; rw [← specList_lsuf (atoms_in_paths h.ms.atoms_in)]
+  have hlk' : ∀ x, x ≠ ch → ((lk x ∨ x = ch) ↔ lk x) := fun x e => ⟨fun hh => hh.resolve_right e, Or.inl⟩
+  have hpp' : ∀ x, x ≠ ch → (pp x ↔ pp x) := fun _ _ => Iff.rfl
   unfold linkChild
   cases hff : findFailure A (A.st ch).input A.states.size (A.st cur).failure with
   | some t =>
@@ -325,6 +480,10 @@ theorem linkChild_I2 {A : Auto} {atoms : List (Nat × Atom)} {lk : Nat → Prop}
     have hA1t : (A.modify ch fun x => { x with failure := t }).st t = A.st t := st_modify_ne A ch t _ htc
     rw [hA1ch, hA1t]
     simp only
+    -- the reference copied from `t` is the final continuation, or NULL where the final one is the root's list
+    have hreft : (A.st t).matchesRef = RT A atoms ch ∨ ((A.st t).matchesRef = 0 ∧ RT A atoms ch = R0 atoms) := by
+      rw [hRT, htarget, ← ht3]
+      exact h.ms.ref_status (Or.inr ht2)
     by_cases hr : (A.st ch).matchesRef = 0
     · rw [if_pos hr]
       have hst : ∀ j, ((A.modify ch fun x => { x with failure := t }).modify ch fun x => { x with matchesRef := (A.st t).matchesRef }).st j =
@@ -334,23 +493,23 @@ theorem linkChild_I2 {A : Auto} {atoms : List (Nat × Atom)} {lk : Nat → Prop}
         by_cases e : j = ch
         · subst e; simp [hch0.2, hA1ch]
         · simp [e, st_modify_ne A ch j _ e]
-      apply I2_update h hch0 hnl (f := t)
-      · simp
+      rw [hr] at hfresh
+      apply I2_frame (B := (A.modify ch fun x => { x with failure := t }).modify ch fun x => { x with matchesRef := (A.st t).matchesRef })
+        h hch0 (by simp) ?_ (fun j hj => by rw [hst, if_neg hj]; exact ⟨rfl, rfl⟩) rfl (fun _ _ _ hh => hh)
+        (fun _ _ => rfl) hlk' hpp' (fun hh => absurd hh hnpp)
+      · intro hh; exact absurd (Or.inr rfl) hh
+      · intro _ _
+        rw [hst, if_pos rfl, hfresh.nil_of_zero]
+        exact ⟨(A.st t).matchesRef, by simp [ChainSeg], hreft⟩
+      · intro hh; exact absurd hh hnpp
+      · intro _
+        rw [hst, if_pos rfl]
+        exact ⟨ht1, by rw [ht3, htarget]⟩
       · intro i
         have e1 := shape_modify A ch (fun x => { x with failure := t }) (fun _ => ⟨rfl, rfl, rfl, rfl⟩) i
         have e2 := shape_modify (A.modify ch fun x => { x with failure := t }) ch
           (fun x => { x with matchesRef := (A.st t).matchesRef }) (fun _ => ⟨rfl, rfl, rfl, rfl⟩) i
         exact e2.trans e1
-      · intro j hj; rw [hst, if_neg hj]; exact ⟨rfl, rfl⟩
-      · rfl
-      · intro e a b hh; exact hh
-      · intro e _; rfl
-      · rw [hst, if_pos rfl]
-        refine ⟨rfl, ht1, Or.inr ht2, by rw [ht3, htarget], ?_⟩
-        simp only
-        rw [hr] at hfresh
-        rw [hfresh.nil_of_zero]
-        simp [ChainSeg]
     · rw [if_neg hr]
       rcases List.eq_nil_or_concat (ownIdx atoms (A.st ch).path) with hl | ⟨init, last, hl⟩
       · rw [hl] at hfresh; simp only [ChainSeg] at hfresh; exact absurd hfresh hr
@@ -364,14 +523,20 @@ theorem linkChild_I2 {A : Auto} {atoms : List (Nat × Atom)} {lk : Nat → Prop}
           lastMatch_spec _ init last _ _ hfresh hlen
         rw [pool_modify, hlm]
         have hnd : (init ++ [last]).Nodup := by rw [← hl]; exact ownIdx_nodup _ _
-        apply I2_update h hch0 hnl (f := t)
-        · simp
+        apply I2_frame (B := setNext (A.modify ch fun x => { x with failure := t }) (last + 1) (A.st t).matchesRef)
+          h hch0 (by simp) ?_ (fun j hj => by rw [setNext_st, st_modify_ne A ch j _ hj]; exact ⟨rfl, rfl⟩) (by simp)
+          (fun e a b hh => setNext_info (A.modify ch fun x => { x with failure := t }) (last + 1) (A.st t).matchesRef e a b hh) ?_ hlk' hpp' (fun hh => absurd hh hnpp)
+        · intro hh; exact absurd (Or.inr rfl) hh
+        · intro _ _
+          rw [setNext_st, hA1ch, hl]
+          exact ⟨(A.st t).matchesRef, ChainSeg.setNext_last (A := A.modify ch fun x => { x with failure := t }) hfresh hnd _, hreft⟩
+        · intro hh; exact absurd hh hnpp
+        · intro _
+          rw [setNext_st, hA1ch]
+          exact ⟨ht1, by rw [ht3, htarget]⟩
         · intro i
           show shape (A.modify ch fun x => { x with failure := t }) i = shape A i
           exact shape_modify A ch (fun x => { x with failure := t }) (fun _ => ⟨rfl, rfl, rfl, rfl⟩) i
-        · intro j hj; rw [setNext_st, st_modify_ne A ch j _ hj]; exact ⟨rfl, rfl⟩
-        · simp
-        · intro e a b hh; exact setNext_info _ _ _ e a b hh
         · intro e he
           rw [setNext_next]
           have : ¬ (e = last + 1 - 1 ∧ e < (A.modify ch fun x => { x with failure := t }).pool.size) := by
@@ -380,25 +545,20 @@ theorem linkChild_I2 {A : Auto} {atoms : List (Nat × Atom)} {lk : Nat → Prop}
             rw [hl, hh.1]
             simp
           rw [if_neg this]; rfl
-        · rw [setNext_st, hA1ch]
-          refine ⟨rfl, ht1, Or.inr ht2, by rw [ht3, htarget], ?_⟩
-          simp only
-          rw [hl]
-          exact ChainSeg.setNext_last (A := A.modify ch fun x => { x with failure := t }) hfresh hnd _
   | none =>
     rw [hff] at spec
     simp only at spec ⊢
-    apply I2_update h hch0 hnl (f := 0)
-    · simp
-    · exact shape_modify A ch (fun x => { x with failure := 0 }) (fun _ => ⟨rfl, rfl, rfl, rfl⟩)
-    · intro j hj; rw [st_modify_ne A ch j _ hj]; exact ⟨rfl, rfl⟩
-    · rfl
-    · intro e a b hh; exact hh
-    · intro e _; rfl
-    · rw [st_modify_self A ch _ hch0.2]
-      refine ⟨rfl, hT.size_pos, Or.inl rfl, by rw [hT.root_path, htarget, spec], ?_⟩
-      simp only
-      rw [h.ms.root_ref]
-      exact hfresh
+    apply I2_frame (B := A.modify ch fun x => { x with failure := 0 }) h hch0 (by simp) (shape_modify A ch (fun x => { x with failure := 0 }) (fun _ => ⟨rfl, rfl, rfl, rfl⟩))
+      (fun j hj => by rw [st_modify_ne A ch j _ hj]; exact ⟨rfl, rfl⟩) rfl (fun _ _ _ hh => hh) (fun _ _ => rfl) hlk' hpp'
+      (fun hh => absurd hh hnpp)
+    · intro hh; exact absurd (Or.inr rfl) hh
+    · intro _ _
+      rw [st_modify_self A ch _ hch0.2]
+      refine ⟨0, hfresh, Or.inr ⟨rfl, ?_⟩⟩
+      rw [hRT, htarget, spec]; rfl
+    · intro hh; exact absurd hh hnpp
+    · intro _
+      rw [st_modify_self A ch _ hch0.2]
+      exact ⟨hT.size_pos, by rw [hT.root_path, htarget, spec]⟩
 
 end YaraModel.AC.Build
